@@ -159,6 +159,20 @@ class Rich:
             if isreq:
                 req.append(pn)
             pexp[pn] = dict(e, required=isreq)
+        if depth == 0 and r.random() < 0.3:
+            # three wire keys around one derived field name: camelCase and snake_case spellings of the same words, and a
+            # key spelled like the name a de-collided field gets (addrLine7x / addr_line7x / addr_line7x_2)
+            self.uniq += 1
+            u = self.uniq
+            trio = [(f"addrLine{u}x", "string"), (f"addr_line{u}x", "integer"), (f"addr_line{u}x_2", "boolean")]
+            r.shuffle(trio)
+            for k, (pn, t) in enumerate(trio):
+                props[pn] = {"type": t}
+                isreq = k == 2 and r.random() < 0.5
+                if isreq:
+                    req.append(pn)
+                pexp[pn] = {"kind": t, "format": None, "required": isreq}
+            self.use("colliding_property_trio")
         return props, pexp, req
 
     # ------------------------------------------------------------------ named schemas
